@@ -96,6 +96,8 @@ type gField struct {
 	fixFreq bool // frequency is the constant 1 (no symbolic number)
 	fixLocs bool // every hit has exactly maxLocs locations
 	shape   bool // geo-shape field: its encoded shape is one more doc-value term of the document
+	comp    bool // composite field (delivered through VisitComposite, like bleve's _all)
+	locField string // the locations of its hits name this (existing) field instead of the field itself
 }
 
 type gCfg struct {
@@ -240,9 +242,13 @@ func vGenBatch(cfg gCfg) ([]index.Document, *sSpec) {
 						if cfg.maxAP > 0 {
 							nap = vChoice(cfg.prefix+"nap"+lt, cfg.maxAP+1)
 						}
-						loc := vLoc{pos: int(g.num("pos"+lt, 1<<63)), start: int(g.num("st"+lt, 1<<63)), end: int(g.num("en"+lt, 1<<63)), ap: g.aps(lt, nap)}
+						loc := vLoc{field: gf.locField, pos: int(g.num("pos"+lt, 1<<63)), start: int(g.num("st"+lt, 1<<63)), end: int(g.num("en"+lt, 1<<63)), ap: g.aps(lt, nap)}
 						vt.locs = append(vt.locs, loc)
-						accs[ti].locs = append(accs[ti].locs, sLoc{field: gf.name, pos: uint64(loc.pos), start: uint64(loc.start), end: uint64(loc.end), ap: loc.ap})
+						lf := gf.name
+						if gf.locField != "" {
+							lf = gf.locField
+						}
+						accs[ti].locs = append(accs[ti].locs, sLoc{field: lf, pos: uint64(loc.pos), start: uint64(loc.start), end: uint64(loc.end), ap: loc.ap})
 					}
 					terms = append(terms, vt)
 					accs[ti].has = true
@@ -294,7 +300,9 @@ func vGenBatch(cfg gCfg) ([]index.Document, *sSpec) {
 					ds.stored = append(ds.stored, sStoredVal{field: gf.name, typ: typ, val: val, ap: ap})
 				}
 				tf := vTextField(gf.name, int(length), terms, opts, val, ap, typ)
-				if gf.shape {
+				if gf.comp {
+					doc.composite = append(doc.composite, tf)
+				} else if gf.shape {
 					sh := []byte{'S', byte('0' + d), byte('0' + o)}
 					doc.fields = append(doc.fields, &vShapeField{tf, sh})
 					shapeTerm = string(sh) // (the shape of the last occurrence wins)
